@@ -15,6 +15,9 @@ for d in sorted(glob.glob("/verif/seeded/*")):
             except Exception:
                 pass
     det = "yes" if m.get("detected") else ("**no**" if "detected" in m else "?")
+    others = [k for k, v in (m.get("other_checks") or {}).items() if v.get("detected")]
+    if others:
+        det += " (caught by " + ", ".join(sorted(others)) + ")"
     rows.append(f"| {name} | {', '.join((m.get('files_changed') or ['?']))[:60]} | {what} | {det} | {', '.join(sorted(set(sigs)))[:120]} |")
 print("| change | file | what it breaks | caught by the property's quick check | violation signature(s) |")
 print("|---|---|---|---|---|")
